@@ -124,8 +124,19 @@ def check(run):
         fails += 1
         run.findings.append(Finding("C08.py.native_sign_sensitive", "python", problems[0], {"language": "python", "inputs": {"shape": [2, 2, 0], "seed": run.seed, "sign_sensitive": True}, "oracle_verdict": problems[:3]}, True))
     from checks import C01
+    from replay import kalman
 
     C01.native_branchy(run, "C08")
+    # the FILTER with CSE on and off: every Jacobian, prediction and update of a stateful sequence against the exact oracle
+    ff = 0
+    for linear, cse in ((True, True), (True, False), (False, True), (False, False)):
+        run.native_runs += 1
+        problems, fsc = kalman.native_sequence(run.seed, linear=linear, k_edit=3.0, cse=cse)
+        if problems:
+            ff += 1
+            run.findings.append(Finding("C08.py.native_filter_sequence", f"cse={cse}", f"{'linear' if linear else 'generic'} filter compiled with CSE {'on' if cse else 'off'}: {problems[0]}", {"language": "python", "inputs": {"shape": [3, 1, 2], "seed": run.seed, "filter_sequence": True, "cse": cse, "linear": linear}, "model_definition": fsc.describe(), "oracle_verdict": problems[:4]}, True))
+            break
+    run.bounded.append({"what": "the compiled FILTER with CSE on and with CSE off: Jacobians, predictions (also chained) and sensor updates of one stateful sequence, each against the exact oracle", "bound": "2 models (linear, generic) x 2 CSE settings", "failures": ff, "counted_as_proved": False})
     run.bounded.append({"what": "compiled python model with nested shared sub-expressions: CSE on vs off vs exact sympy, four calls on the same compiled object (a point, two nearby points, the first point again)", "bound": f"{len(shapes)} programs", "failures": fails, "counted_as_proved": False})
     try:
         from checks import cxx_generated
@@ -146,7 +157,13 @@ def cxx_ssa_native(shape, seed, container="set"):
 
 def replay_file(payload):
     inp = payload["inputs"]
-    if inp.get("branchy"):
+    if inp.get("filter_sequence"):
+        from replay import kalman
+
+        problems, _ = kalman.native_sequence(inp.get("seed", 0), linear=inp.get("linear", False), k_edit=3.0, cse=inp.get("cse"))
+        print("replay C08 (filter sequence):", problems[:3] or "as specified")
+        return not problems
+    if inp.get("branchy") or inp.get("passthrough"):
         from checks import C01
 
         return C01.replay_file(payload)
